@@ -203,7 +203,7 @@ Spec == Init /\ [][Next]_vars
 
 \* ---- the statement, at every point of every transaction (relative to its start)
 InvDecrease == InTx => DecreaseOnlyWithAuthority(pre, bal, tx, grants)
-InvDenom == InTx => RealmDenomAuthority(preV, balV, tx)
+InvDenom == InTx => RealmDenomAuthority(preV, balV, tx, grants)
 \* a banker over the vault's address exists only after a delegation
 InvCapsNeedGrant == (\E c \in caps : c.addr = "vault") => "vault" \in grants
 InvOriginSpent == ospent <= osend
